@@ -45,12 +45,14 @@ func (m metaClient) ShardGroupsByTimeRange(database, policy string, min, max tim
 	return m.data.ShardGroupsByTimeRange(database, policy, min, max)
 }
 
-func newMeta() metaClient {
+// With overlap the first two shard groups share the slots [8,10): what a change of the shard group duration
+// leaves behind. A point in the shared slots lives in whichever of the two shards its write was routed to.
+func newMeta(overlap bool) metaClient {
 	rp := meta.RetentionPolicyInfo{Name: rpName, ReplicaN: 1, ShardGroupDuration: time.Duration(slotsPerShard * 1000)}
 	// listed out of order on purpose: the service has to sort the groups it gets
 	for _, k := range []int{2, 1, 3} {
 		rp.ShardGroups = append(rp.ShardGroups, meta.ShardGroupInfo{
-			ID: uint64(k), StartTime: time.Unix(0, shardStart(k)), EndTime: time.Unix(0, shardStart(k+1)),
+			ID: uint64(k), StartTime: time.Unix(0, shardStart(k)), EndTime: time.Unix(0, shardEnd(k, overlap)),
 			Shards: []meta.ShardInfo{{ID: uint64(k)}},
 		})
 	}
@@ -114,7 +116,8 @@ type op struct {
 	G    string   `json:"g,omitempty"` // "by" | "none"
 	Keys []string `json:"keys,omitempty"`
 	Key  string   `json:"key,omitempty"`
-	Bg   int      `json:"bg,omitempty"` // reads: 1..3 = snapshot shard Bg-1 while reading, 4..6 = full compaction of shard Bg-4
+	Alt  bool     `json:"alt,omitempty"` // writes, overlapping shard groups only: shared slots go to the older group
+	Bg   int      `json:"bg,omitempty"`  // reads: 1..3 = snapshot shard Bg-1 while reading, 4..6 = full compaction of shard Bg-4
 }
 
 var predKeys = []string{"_measurement", "host", "region", "_field"}
@@ -204,6 +207,9 @@ func gen(r *hx.Run) []json.RawMessage {
 				p.S, p.F, p.T = append(p.S, s), append(p.F, f), append(p.T, t)
 			}
 			p.N = o.Choose(2, "worder")
+			if r.CfgBool("overlap") {
+				p.Alt = o.Bool(1, 2, "alt")
+			}
 		case 1, 2:
 			if reader >= 0 {
 				p.C = reader
@@ -302,6 +308,7 @@ type world struct {
 	started  int        // writers / deleters ever started
 	written  map[int]bool
 	metaViol bool // one metadata observation per run is enough
+	overlap  bool
 }
 
 func (w *world) stamp() uint64 { return simrt.Seq() }
@@ -344,7 +351,11 @@ func (w *world) doOp(p op, alone bool) {
 				r.Violate("machinery", "newpoint", "%v", err)
 				return
 			}
-			byShard[shardOfSlot(k.t)] = append(byShard[shardOfSlot(k.t)], pt)
+			sh := shardOfSlot(k.t)
+			if w.overlap && p.Alt && sh == 2 && k.t < slotsPerShard+overlapSlots {
+				sh = 1
+			}
+			byShard[sh] = append(byShard[sh], pt)
 		}
 		inv := w.stamp()
 		var evs []*model.WEv
@@ -840,7 +851,8 @@ func exec(r *hx.Run, prog []json.RawMessage) {
 		return
 	}
 	w.src = src
-	mc := newMeta()
+	w.overlap = r.CfgBool("overlap")
+	mc := newMeta(w.overlap)
 	r.Simulate(func() {
 		opts := engineOptions(r.Tape.S("cfg"), filepath.Join(fs.Root, "wal"))
 		open := func() *tsdb.Store {
